@@ -87,6 +87,35 @@ func newEngine(er *engineRun) *goja.Runtime {
 		er.Log = append(er.Log, "L "+call.Argument(0).String()+" @"+call.Argument(1).String())
 		return call.Argument(0)
 	})
+	// goForOf(iterable, op, at, a, id, thrower): the Go embedding API front end of the iterator protocol (Runtime.ForOf)
+	r.Set("goForOf", func(call goja.FunctionCall) goja.Value {
+		op, at := int(call.Argument(1).ToInteger()), int(call.Argument(2).ToInteger())
+		a, id := int(call.Argument(3).ToInteger()), int(call.Argument(4).ToInteger())
+		j := 0
+		r.ForOf(call.Argument(0), func(v goja.Value) bool {
+			j++
+			er.Log = append(er.Log, ctlref.Ev("GS", a, id, j))
+			if op != 0 && j == at {
+				er.Log = append(er.Log, ctlref.Ev("GX", a, id, j))
+				switch op {
+				case 1:
+					return false
+				case 2:
+					panic(r.ToValue(63000 + id))
+				case 3:
+					panic(r.NewTypeError("step %d", j))
+				default:
+					if fn, ok := goja.AssertFunction(call.Argument(5)); ok {
+						if _, err := fn(goja.Undefined(), v); err != nil {
+							panic(err)
+						}
+					}
+				}
+			}
+			return true
+		})
+		return goja.Undefined()
+	})
 	r.Set("sink", func(call goja.FunctionCall) goja.Value { return goja.Undefined() })
 	return r
 }
